@@ -82,18 +82,22 @@ def sections_model(ctx):
     invs = "".join(f"INVARIANT {i}\n" for i in ("Inv_StepAgreesWithFunction", "Inv_EveryParagraphOnce", "Inv_PathIsOpenChain",
                                                   "Inv_Numbered", "Inv_HeadingTextKept"))
     cfg = f"SPECIFICATION Spec\nCONSTANTS WalkDev = {{}}\n MaxLen = {n}\n{invs}PROPERTY Prop_Terminates\n"
-    r = run_tlc("Sections", cfg, scratch=ctx.scratch, expect_fail=True, heap="10g", workers=16, timeout=3000)
+    from ..tlc import run_tlc_many
+    sdevs = ("Docx!PreambleLost", "Odt!EmptyHeadingDropped")
+    dump = ctx.scratch / "secgen.dump"
+    res = run_tlc_many(
+        [("Sections", cfg, dict(scratch=ctx.scratch, expect_fail=True, heap="10g", workers=8, timeout=3000))]
+        + [("Sections", cfg.replace("WalkDev = {}", f'WalkDev = {{"{dv}"}}').replace(f"MaxLen = {n}", "MaxLen = 3"),
+            dict(scratch=ctx.scratch, expect_fail=True, heap="4g", workers=4)) for dv in sdevs]
+        + [("Sections", "SPECIFICATION GenSpec\nCONSTANTS WalkDev = {}\n MaxLen = 4\n", dict(scratch=ctx.scratch, dump=dump, heap="6g", workers=4))])
+    r, rg = res[0], res[-1]
     ctx.ev.tlc(f"Sections MaxLen={n}: every paragraph in exactly one unit, path = chain of open headings, heading text kept", r)
     if r.violated:
         ctx.v.violation(what=f"Sections.tla: the strict section model violates {r.violated}", observed=r.output[-1500:])
-    for dv in ("Docx!PreambleLost", "Odt!EmptyHeadingDropped"):
-        rs = run_tlc("Sections", cfg.replace("WalkDev = {}", f'WalkDev = {{"{dv}"}}').replace(f"MaxLen = {n}", "MaxLen = 3"),
-                     scratch=ctx.scratch, expect_fail=True, heap="8g")
+    for dv, rs in zip(sdevs, res[1:-1]):
         ctx.ev.tlc(f"Sections sensitivity: as-built step {dv} must violate a theorem", rs, note="expected violation")
         if not rs.violated:
             raise MachineryError(f"Sections sensitivity run for {dv} did not fail")
-    dump = ctx.scratch / "secgen.dump"
-    rg = run_tlc("Sections", f"SPECIFICATION GenSpec\nCONSTANTS WalkDev = {{}}\n MaxLen = 4\n", scratch=ctx.scratch, dump=dump, heap="8g")
     ctx.ev.tlc("Sections GenSpec MaxLen=4: paragraph lists x flavour x title", rg)
     cases = sorted(((str(st["flavour"]), from_tla(st["base"]), from_tla(st["paras"])) for st in iter_dump(dump)),
                    key=lambda c: json.dumps(c))
